@@ -13,6 +13,8 @@ import (
 	"fmt"
 	"os"
 	"sort"
+	"sync"
+	"sync/atomic"
 	"time"
 
 	"verifharness/core"
@@ -39,6 +41,8 @@ func runCases(in childIn, log func(any)) []*caseResult {
 			out = append(out, evalSeq(genSeqCase(s), in.IsoMod > 0 && i%in.IsoMod == 0))
 		case "conc":
 			out = append(out, evalConc(genConcCase(s)))
+		case "multi":
+			out = append(out, evalMulti(genMultiCase(s)))
 		}
 	}
 	return out
@@ -56,7 +60,7 @@ func main() {
 }
 
 func run(c *core.Ctx) {
-	c.SetRule("seq: one generated throttle config (interval, buckets_count 1..60, count/size limits incl. 0, 0-3 rules, optional limit_distribution per limit, hostile keys) and a history of 120-250 events in steps of 1-12 under a virtual wall clock that stays, creeps, hits bucket boundaries or jumps up to 10 windows; event times in/at the edges of/outside the window, unusable or absent; fed in order through one processor of a real pipeline; every decision compared with a dictionary model (all documented stealing choices kept). conc: bursts of 100-400 events per step from 2-8 sources into a parallel pipeline, order-independent sums. non-trivial = the case has both passed and discarded events; fingerprint = config shape + set of (event-time class, limiter type, decision) and clock-jump behaviours reached")
+	c.SetRule("seq: one generated throttle config (interval, buckets_count 1..60, count/size limits incl. 0, 0-3 rules, optional limit_distribution per limit, hostile keys) and a history of 120-250 events in steps of 1-12 under a virtual wall clock that stays, creeps, hits bucket boundaries or jumps up to 10 windows; event times in/at the edges of/outside the window, unusable or absent; fed in order through one processor of a real pipeline; every decision compared with a dictionary model (all documented stealing choices kept). conc: bursts of 100-400 events per step from 2-8 sources into a parallel pipeline (2*GOMAXPROCS processors sharing the limiters), order-independent sums. multi: a seq history through a pipeline with two throttle actions, compared with the same actions in separate pipelines and with two models. non-trivial = the case has both passed and discarded events; fingerprint = config shape + set of (event-time class, limiter type, decision) and clock-jump behaviours reached")
 	c.Assume("the virtual clock installed with limitersMap.setNowFn (the hook the package's own tests use) is the only wall-clock source that decides the window; the wall clock never goes backwards")
 	c.Assume("fake input with one source + one processor delivers events to the action in the order they were fed (per-stream FIFO of the pipeline)")
 	c.Assume("event size = number of bytes handed to the input (no trailing newline is sent)")
@@ -67,14 +71,18 @@ func run(c *core.Ctx) {
 		return
 	}
 
-	nSeq := c.N(9000, 150000)
-	nConc := c.N(600, 8000)
+	nSeq := c.N(20000, 400000)
+	nConc := c.N(2500, 40000)
+	nMulti := c.N(400, 6000)
 	// debugging aid for mutant experiments only: VERIF_C16_ONLY=seq|conc
 	only := os.Getenv("VERIF_C16_ONLY")
-	if only == "seq" {
-		nConc = 0
-	} else if only == "conc" {
-		nSeq = 0
+	switch only {
+	case "seq":
+		nConc, nMulti = 0, 0
+	case "conc":
+		nSeq, nMulti = 0, 0
+	case "multi":
+		nSeq, nConc = 0, 0
 	}
 	chunkSeq, chunkConc := 30, 8
 	if c.Thorough() {
@@ -100,15 +108,34 @@ func run(c *core.Ctx) {
 		}
 		jobs = append(jobs, j)
 	}
+	for i := 0; i < nMulti; i += chunkSeq {
+		j := job{clause: "multi"}
+		for k := i; k < i+chunkSeq && k < nMulti; k++ {
+			if k == 0 {
+				j.seeds = append(j.seeds, 0) // the directed minimal case
+				continue
+			}
+			j.seeds = append(j.seeds, c.SubSeed("multi", k))
+		}
+		jobs = append(jobs, j)
+	}
 	// the (heavier) concurrent chunks first, so that they do not all end up last
 	sort.SliceStable(jobs, func(a, b int) bool { return jobs[a].clause == "conc" && jobs[b].clause != "conc" })
 
+	// once a few crashes are confirmed the rest of the run is skipped (every
+	// further chunk would pay two child start-ups per case)
+	var crashes atomic.Int32
+	const maxCrashes = 3
 	core.ParallelFor(len(jobs), 24, func(ji int) {
 		j := jobs[ji]
 		seeds := j.seeds
 		for len(seeds) > 0 {
+			if crashes.Load() >= maxCrashes {
+				c.Inconclusive("skipped-after-confirmed-crashes")
+				return
+			}
 			gm := 0
-			if j.clause == "seq" {
+			if j.clause != "conc" {
 				gm = 4
 			}
 			r := core.RunChild("cases", childIn{Clause: j.clause, Seeds: seeds, IsoMod: j.iso}, core.ChildOpt{Timeout: 20 * time.Minute, GOMAXPROCS: gm})
@@ -144,6 +171,7 @@ func run(c *core.Ctx) {
 				c.Violation(fmt.Sprintf("%s crash: %s @%s", j.clause, core.NormalizeMsg(msg), site),
 					"the process running the throttle action died while processing a generated history",
 					map[string]any{"clause": j.clause, "case_seed": last.Seed, "stderr": core.Trunc(r2.Stderr, 3000)})
+				crashes.Add(1)
 			} else {
 				c.Inconclusive("child-crash-not-reproduced")
 			}
@@ -163,11 +191,17 @@ func run(c *core.Ctx) {
 		"ev_plain_pass", "ev_plain_rej", "ev_dist-listed_pass", "ev_dist-listed_rej", "ev_dist-unlisted_pass", "ev_dist-unlisted_rej",
 		"ev_stole_listed_share", "budget_reused_after_full_window_jump", "budget_reused_after_partial_shift",
 		"clock_shift_gt_window", "clock_shift_lt_window", "clock_same_bucket",
-		"isolation_replays", "conc_exact_count_checks", "conc_dist_bucket_checks", "conc_size_reject_checks",
+		"isolation_replays", "multi_events_passed", "multi_events_discarded_by_first", "multi_events_discarded_by_second", "multi_events_same_rule_index_in_both",
+		"conc_exact_count_checks", "conc_dist_bucket_checks", "conc_size_reject_checks",
 	}
 	for _, n := range need {
-		isConc := len(n) > 5 && n[:5] == "conc_"
-		if (only == "seq" && isConc) || (only == "conc" && !isConc) {
+		cl := "seq"
+		if len(n) > 5 && n[:5] == "conc_" {
+			cl = "conc"
+		} else if len(n) > 6 && n[:6] == "multi_" {
+			cl = "multi"
+		}
+		if only != "" && only != cl {
 			continue
 		}
 		if c.Counter(n) == 0 && c.Violations() == 0 {
@@ -175,6 +209,11 @@ func run(c *core.Ctx) {
 		}
 	}
 }
+
+var (
+	sigMu   sync.Mutex
+	sigSeen = map[string]int{}
+)
 
 func merge(c *core.Ctx, cr *caseResult) {
 	if cr.Inconclusive != "" {
@@ -193,6 +232,9 @@ func merge(c *core.Ctx, cr *caseResult) {
 		if cr.Clause == "conc" && (k == "events" || k == "events_passed" || k == "events_discarded" || k == "budgets_rule_key_bucket") {
 			k = "conc_" + k
 		}
+		if cr.Clause == "multi" {
+			k = "multi_" + k
+		}
 		c.Count(k, v)
 	}
 	if cr.Nontrivial {
@@ -204,6 +246,15 @@ func merge(c *core.Ctx, cr *caseResult) {
 		c.Sample(cr.Sample)
 	}
 	for _, v := range cr.Violations {
+		// at most 3 witnesses per signature reach the report; the rest is counted
+		sigMu.Lock()
+		sigSeen[v.Sig]++
+		n := sigSeen[v.Sig]
+		sigMu.Unlock()
+		if n > 3 {
+			c.Count("violations_same_signature_not_reported", 1)
+			continue
+		}
 		c.Violation(v.Sig, v.What, v.Witness)
 	}
 }
